@@ -1050,9 +1050,10 @@ fn fam_tight<T: Payload>(c: &Case, cx: &mut Ctx) -> Outcome {
     let par1 = kanal::verif::get_parallelism() == 1;
     let role = 1u32;
     fp::set_jitter(role, pt, 1 + 40 * (1 + c.b % 6));
+    // read the pass counter BEFORE the waiter exists: it may reach the point before we look again
+    let mut last = fp::pass_count(role, pt);
     let w = sc.spawn(if recv_side { Side::R } else { Side::S }, c.d & 1 == 1, vec![wk; n]);
     let mut rng = Rng::new(c.seed ^ 77);
-    let mut last = fp::pass_count(role, pt);
     let mut delivered = 0usize;
     let mut spins_total = 0u64;
     'iters: for _ in 0..n {
